@@ -39,8 +39,9 @@ def graph_obs(b, dsg, deep=True):
     """Everything an existing graph object reports (C08)."""
     obs = {
         'nodes': tuple(sorted(b.name(n) for n in dsg.graph.nodes)),
-        'edges': tuple(sorted((b.name(u), b.name(v), k, get_edge_type((u, v, k, d)).name)
-                              for u, v, k, d in dsg.graph.edges(keys=True, data=True))),
+        'edges': tuple(sorted(((b.name(u), b.name(v), k, get_edge_type((u, v, k, d)).name)
+                               for u, v, k, d in dsg.graph.edges(keys=True, data=True)),
+                              key=lambda t: (t[0], t[1], str(t[2]), t[3]))),   # edge keys are ints or strings
         'final': bool(dsg.final),
         'des_var_values': tuple(sorted((b.name(n), v) for n, v in dsg.des_var_values.items())),
         'metric_values': tuple(sorted((b.name(n), repr(v)) for n, v in dsg.metric_values.items())),
